@@ -1,2 +1,49 @@
-(* C12 placeholder *)
-From Prov Require Import Interp.
+(* C12 — derived documents share no mutable state with their sources.
+   In the model a world is a list of document *values*; the theorems say that a
+   call changes at most its target document and that deriving calls only append.
+   That the Python objects behave like these values is what the correspondence run
+   and the frame oracle of this check establish on the implementation. *)
+From Coq Require Import String List Arith.
+From Prov Require Import Str Sexp Tables Nsm Values Record World Interp InterpProofs.
+Import ListNotations.
+Open Scope string_scope.
+
+(* every document other than the call's target is exactly as before — content,
+   record order, namespaces, default namespace, bundles — whatever the call returns
+   or raises.  Deriving calls (unified, flattened, document from records) have no
+   target at all. *)
+Theorem C12_frame : forall w o d,
+  d < length (wdocs w) -> Some d <> target o ->
+  nth_error (wdocs (fst (step w o))) d = nth_error (wdocs w) d.
+Proof. exact step_frame. Qed.
+Print Assumptions C12_frame.
+
+(* no call removes a document: handles stay valid, deriving calls append *)
+Theorem C12_handles_stable : forall w o, length (wdocs w) <= length (wdocs (fst (step w o))).
+Proof. exact step_length. Qed.
+Print Assumptions C12_handles_stable.
+
+(* consequence: any sequence of calls that never targets document d leaves it
+   unchanged — "later modification of the derived object never changes the source,
+   and vice versa" *)
+Theorem C12_independent : forall ops w d,
+  d < length (wdocs w) -> Forall (fun o => Some d <> target o) ops ->
+  nth_error (wdocs (fold_left (fun w o => fst (step w o)) ops w)) d = nth_error (wdocs w) d.
+Proof.
+  induction ops as [|o ops IH]; intros w d L F; cbn [fold_left]; [reflexivity|].
+  inversion F as [|? ? Ho Hr]; subst.
+  rewrite IH; [apply step_frame; assumption | | exact Hr].
+  eapply Nat.lt_le_trans; [exact L | apply step_length].
+Qed.
+Print Assumptions C12_independent.
+
+(* non-vacuity: unified() yields a new handle; mutating the result leaves the source as it was *)
+Definition ex_w : world :=
+  wrun [] [ONewDoc; OAddNs (CDoc 0) "ex" "http://e/";
+           ONewRecord (CDoc 0) "Entity" (Some (NStr "ex:a")) [];
+           ONewRecord (CDoc 0) "Entity" (Some (NStr "ex:a")) []].
+Example C12_unified_fresh :
+  snd (step ex_w (OUnified 0)) = RHandle 1 /\
+  nth_error (wdocs (fst (step (fst (step ex_w (OUnified 0))) (OAddNs (CDoc 1) "zz" "http://z/")))) 0
+    = nth_error (wdocs ex_w) 0.
+Proof. split; vm_compute; reflexivity. Qed.
